@@ -154,6 +154,51 @@ theorem bitmap_container_unobservable (s : St) (t : Ty) (v : Nat) :
       (remove { s with ty := t } v).2 = (remove s v).2) :=
   ⟨add_ty_irrelevant s t v, remove_ty_irrelevant s t v⟩
 
+/-- iteration and conversion to an array yield exactly the members (each 16-bit value whose bit is set) -/
+theorem bitmap_members_spec (s : St) (x : Nat) : x ∈ members s ↔ x < 65536 ∧ s.bits.testBit x = true :=
+  mem_members s x
+
+/-- **set algebra.** Built the way the C builds them (Clone/Create + Add of the iterated members), the four
+    operations are union, intersection, symmetric difference and difference of the member sets, and their
+    results satisfy the invariant (counter = number of members) -/
+theorem bitmap_or_spec (a b : St) (ha : Inv a) (hb : Inv b) :
+    (∀ w, (Bitmap.or a b).bits.testBit w = (a.bits.testBit w || b.bits.testBit w)) ∧ Inv (Bitmap.or a b) := by
+  unfold Bitmap.or
+  obtain ⟨h1, h2⟩ := addMany_spec (members b) a (members_lt b) ha
+  refine ⟨fun w => ?_, h2⟩
+  rw [h1 w, bits_of_members b hb.small w]
+
+theorem bitmap_and_spec (a b : St) (ha : Inv a) :
+    (∀ w, (Bitmap.and a b).bits.testBit w = (a.bits.testBit w && b.bits.testBit w)) ∧ Inv (Bitmap.and a b) := by
+  unfold Bitmap.and
+  obtain ⟨h1, h2⟩ := addMany_spec (members ⟨.array, 0, a.bits &&& b.bits⟩) init (members_lt _) inv_init
+  refine ⟨fun w => ?_, h2⟩
+  rw [h1 w, bits_of_members ⟨.array, 0, a.bits &&& b.bits⟩ (fun v hv => by simp only []; rw [Nat.testBit_and, ha.small v hv]; rfl) w]
+  simp only [Nat.testBit_and]
+  simp [init]
+
+theorem bitmap_xor_spec (a b : St) (ha : Inv a) (hb : Inv b) :
+    (∀ w, (Bitmap.xor a b).bits.testBit w = (a.bits.testBit w ^^ b.bits.testBit w)) ∧ Inv (Bitmap.xor a b) := by
+  unfold Bitmap.xor
+  obtain ⟨h1, h2⟩ := addMany_spec (members ⟨.array, 0, a.bits ^^^ b.bits⟩) init (members_lt _) inv_init
+  refine ⟨fun w => ?_, h2⟩
+  rw [h1 w, bits_of_members ⟨.array, 0, a.bits ^^^ b.bits⟩ (fun v hv => by
+    simp only []; rw [Nat.testBit_xor, ha.small v hv, hb.small v hv]; rfl) w]
+  simp only [Nat.testBit_xor]
+  simp [init]
+
+theorem bitmap_andnot_spec (a b : St) (ha : Inv a) :
+    (∀ w, (Bitmap.andNot a b).bits.testBit w = (a.bits.testBit w && !b.bits.testBit w)) ∧
+      Inv (Bitmap.andNot a b) := by
+  unfold Bitmap.andNot Bitmap.andNot.clearAll
+  obtain ⟨h1, h2⟩ := addMany_spec (members ⟨.array, 0, a.bits ^^^ (a.bits &&& b.bits)⟩) init (members_lt _) inv_init
+  refine ⟨fun w => ?_, h2⟩
+  rw [h1 w, bits_of_members ⟨.array, 0, a.bits ^^^ (a.bits &&& b.bits)⟩ (fun v hv => by
+    simp only []; rw [Nat.testBit_xor, Nat.testBit_and, ha.small v hv]; rfl) w]
+  simp only [Nat.testBit_xor, Nat.testBit_and]
+  simp only [init, Nat.zero_testBit, Bool.false_or]
+  cases a.bits.testBit w <;> cases b.bits.testBit w <;> rfl
+
 /-- non-vacuity: a short history through the model -/
 example : (run init [.add 7, .add 7, .remove 7, .remove 8]).2 = [some true, some false, some true, some false] := by
   decide
